@@ -211,6 +211,9 @@ class VSocket(object):
         s.yield_point()
         self.net.tcp_attempts += 1
         host, port = addr[0], addr[1]
+        for name, ip in getattr(self.net, 'dns', {}).items():
+            if ip == host:
+                host = name
         factory = self.net.servers.get((host, port))
         sess = None
         if factory is not None:
@@ -441,7 +444,11 @@ class VSocketModule(object):
         self.net = net
 
     def getaddrinfo(self, host, port, family=0, type_=0, proto=0, flags=0):
-        return [(self.AF_INET, self.SOCK_STREAM, 6, '', (host, port))]
+        # a host name resolves to an address that is not the name (what the handshake carries is the name)
+        dns = self.net.__dict__.setdefault('dns', {})
+        if host not in dns and not host.replace('.', '').isdigit():
+            dns[host] = '10.77.0.%d' % (len(dns) + 1)
+        return [(self.AF_INET, self.SOCK_STREAM, 6, '', (dns.get(host, host), port))]
 
     def socket(self, family=None, type_=None, proto=None):
         return VSocket(self.net, family, type_, proto)
